@@ -587,6 +587,10 @@ func GenEnv(r *Rng, mapLo, mapHi int) *Env {
 	if r.Chance(0.3) {
 		add("x", genScalar(r)) // otherwise undefined: exercises nil / strict mode
 	}
+	if r.Chance(0.05) {
+		// a caller's own map that happens to be called forloop
+		add("forloop", &LV{T: "map", K: []string{"index", "name"}, A: []*LV{{T: "int", I: 99}, {T: "str", S: "mine"}}})
+	}
 	if noAddr {
 		for _, v := range e.Vals {
 			for _, c := range v.A {
